@@ -384,6 +384,10 @@ class App:
                 if isinstance(r, dict) and "role" not in r and str(r.get("type", "")).endswith("Exception"):
                     r = {"role": "exception", "content": r}  # without options the call returns the bare content of the exception message
                 return (dict(r) if isinstance(r, dict) else {"role": "assistant", "content": r}), None, state
+            if self.ver == "v1" and self.api == "nocache":
+                # a stateless deployment: the turn is served by an instance that has not seen the conversation before (another
+                # worker, a restart) - the event history is rebuilt from the message list the caller resends
+                self.app.events_history_cache.clear()
             if self.ver == "v1":
                 msgs.append({"role": "user", "content": user_text})
                 if options is not None:
